@@ -10,7 +10,7 @@ MISSING = '__missing__'
 
 JSONRPC_ALPHA = [MISSING, '2.0', '1.0', 2.0, 2, None, True, [], {}, '2.00', ' 2.0']
 ID_ALPHA = [MISSING, None, 0, 1, -1, 2 ** 63, 10 ** 30, 1.0, 1.5, '', 'a', '1', True, False, [], {}, 'é\u0000\U0001F600']
-METHOD_ALPHA = [MISSING, 'slowfail', 'byid', 'wrapped', 'whoami', 'ctxp', 'fac1', 'fac2', 'ok', 'noargs', 'echo', 'kwonly', 'rpcerr', 'typed', 'boom', 'ctxm', 'view.vm',
+METHOD_ALPHA = [MISSING, 'js_checked', 'js_loose', 'slowfail', 'byid', 'wrapped', 'whoami', 'ctxp', 'fac1', 'fac2', 'ok', 'noargs', 'echo', 'kwonly', 'rpcerr', 'typed', 'boom', 'ctxm', 'view.vm',
                 'view._hidden', 'view', 'nope', '', 1, None, True, [], {}]
 PARAMS_ALPHA = [MISSING, [], {}, [1], [1, 2], {'a': 1}, {'a': 1, 'b': 2}, {'z': 0}, None, 1, 's', True,
                 [[1, [2, {'x': None}]]], {'v': {'k': [1.5, 'é', False]}}, [1, 2, 3], {'ctx': 'evil', 'a': 1}]
@@ -99,6 +99,14 @@ def typed_calls(rng: random.Random, full: bool) -> Iterator[Tuple[str, str, List
     for t in (0, 1, 2, 3, 5):
         yield 'slow', 'slow', [f's{t}', t]
         yield 'slowfail', 'slowfail', [f'f{t}', t, 'rpc' if t % 2 else 'exc']
+    for p in (['10.0.0.1'], {'ip': '192.168.1.254'}):
+        yield 'shared-validator', 'js_checked', p
+    for p in (['not-an-ip'], {'ip': '10.0.0.256'}, [5], []):
+        yield 'unbound', 'js_checked', p
+    for p in (['not-an-ip'], {'s': '10.0.0.1'}, ['']):
+        yield 'shared-validator', 'js_loose', p
+    for p in ([5], {'s': None}, {'zz': 'x'}):
+        yield 'unbound', 'js_loose', p
     for p in ([7], {'id': 7}, {'id': 'x', 'extra': 1}, {'id': None}, [0, 0]):
         yield 'param-named-id', 'byid', p
     for p in ({'extra': 1}, {'id': 1, 'idd': 2}, []):
